@@ -9,4 +9,5 @@ CONSTANTS
     CreateUnderLock = TRUE
     MayFail = FALSE
     MayForget = FALSE
+    MayPanic = FALSE
 INVARIANTS NaiveReuse
